@@ -48,6 +48,7 @@ type rEv struct {
 	D  int64  `json:"d"`
 	S  string `json:"s"`
 	S2 string `json:"b2"`
+	E  int64  `json:"e"` // stage events: the stage's configured duration in microseconds
 }
 
 type rCfg struct {
@@ -84,9 +85,11 @@ type rCfg struct {
 	Labels          string `json:"labels"`
 	Args            string `json:"args"`
 	FileStages      int    `json:"file_stages"`
+	TeardownFail    bool   `json:"teardown_fail"` // a cleanup registered by the setup fails when the run is over
 }
 
 type rTrace struct {
+	skip    bool           // the command line refused the input before anything ran: nothing to validate
 	Cfg     rCfg           `json:"cfg"`
 	Ev      []rEv          `json:"ev"`
 	Err     string         `json:"err"`
@@ -120,9 +123,11 @@ type rCase struct {
 	stageEnv       []string // file mode: environment each planned stage must provide ("K=V;K=V", keys in envKeys order)
 	// the run goes through the real command line (F1.ExecuteWithArgs: flag parsing, run_cmd, signal context) instead
 	// of run.NewRun: cli = the trigger sub-command followed by its own flags; the common flags are derived from cfg
-	cli      []string
-	primer   []string // full argument list of an earlier run on the same F1 instance (not recorded)
-	combined bool     // the scenario is the middle component of f1.CombineScenarios(quiet, scenario, quiet)
+	cli         []string
+	cliOmitConc bool     // --concurrency is left to its documented default (100): cfg.Conc says 100
+	cliLimit    int64    // file trigger: --max-iterations given on the command line as well (refused, or else honoured)
+	primer      []string // full argument list of an earlier run on the same F1 instance (not recorded)
+	combined    bool     // the scenario is the middle component of f1.CombineScenarios(quiet, scenario, quiet)
 }
 
 type rRec struct {
@@ -286,7 +291,7 @@ func (r *rRec) hook(point string, who any, n int64) {
 		if since < 0 {
 			since = 0
 		}
-		r.ev = append(r.ev, rEv{K: "stage", A: int64(r.stageIdx), B: b, C: r.us(), D: since, S: strings.Join(env, ";"), S2: want})
+		r.ev = append(r.ev, rEv{K: "stage", A: int64(r.stageIdx), B: b, C: r.us(), D: since, S: strings.Join(env, ";"), S2: want, E: n / 1000})
 		hold := b == 0 && r.stageEndDelayAt > 0 && r.stageIdx == r.stageEndDelayAt
 		r.mu.Unlock()
 		if hold {
@@ -435,6 +440,9 @@ func runOne(c *ctx, rc rCase, m *metrics.Metrics) rTrace {
 	if rc.cfg.Mode == "file" {
 		// the config file's limits are the run options (as run_cmd does for triggers that ignore the common flags)
 		rc.cfg.Conc, rc.cfg.MaxIter, rc.cfg.MaxDurUs = trig.Options.Concurrency, int64(trig.Options.MaxIterations), trig.Options.MaxDuration.Microseconds()
+		if rc.cliLimit > 0 {
+			rc.cfg.MaxIter = rc.cliLimit // (if the command line takes the flag at all, it is the limit)
+		}
 		tr.Cfg = rc.cfg
 		tr.Cfg.TrigDurUs = trig.Duration.Microseconds()
 	}
@@ -463,7 +471,7 @@ func runOne(c *ctx, rc rCase, m *metrics.Metrics) rTrace {
 		lightRaw = make([]string, 2_000_000)
 	}
 	fn := func(t *f1testing.T) f1testing.RunFn {
-		if rc.teardownMode != "" && !rec.priming.Load() {
+		if rc.teardownMode != "" && !rec.priming.Load() { // (cfg.TeardownFail says so to the observer)
 			t.Cleanup(func() { failWith(t, rc.teardownMode) })
 		}
 		t.Cleanup(func() { rec.add(rEv{K: "setupcleanup", A: live.Load(), C: rec.us()}) })
@@ -683,11 +691,16 @@ func runOne(c *ctx, rc rCase, m *metrics.Metrics) rTrace {
 			}
 			args = append(args, rc.cli[1:]...)
 			if rc.cli[0] != "file" {
-				args = append(args, "--concurrency", strconv.Itoa(rc.cfg.Conc), "--max-duration",
-					(time.Duration(rc.cfg.MaxDurUs) * time.Microsecond).String())
+				if !rc.cliOmitConc {
+					args = append(args, "--concurrency", strconv.Itoa(rc.cfg.Conc))
+				}
+				args = append(args, "--max-duration", (time.Duration(rc.cfg.MaxDurUs) * time.Microsecond).String())
 				if rc.cfg.MaxIter > 0 {
 					args = append(args, "--max-iterations", strconv.FormatInt(rc.cfg.MaxIter, 10))
 				}
+			}
+			if rc.cliLimit > 0 {
+				args = append(args, "--max-iterations", strconv.FormatInt(rc.cliLimit, 10))
 			}
 			cliErr = inst.ExecuteWithArgs(args)
 			doneCh <- doRes{nil, metrics.Instance(), nil}
@@ -730,6 +743,18 @@ func runOne(c *ctx, rc rCase, m *metrics.Metrics) rTrace {
 		}
 	}
 	res, mm, err := dr.res, dr.mm, dr.err
+	if rc.cliLimit > 0 && cliErr != nil {
+		rec.mu.Lock()
+		started := len(rec.ev) > 0
+		rec.mu.Unlock()
+		if !started {
+			tr.skip = true // refused before anything ran (what the unchanged command line does with the flag)
+			if !released {
+				close(release)
+			}
+			return tr
+		}
+	}
 	rec.returned.Store(true)
 	tret := rec.us()
 	if err != nil {
@@ -871,6 +896,9 @@ func runOne(c *ctx, rc rCase, m *metrics.Metrics) rTrace {
 		}
 	}
 	time.Sleep(80 * time.Millisecond)
+	if rc.slowProgressUs > 0 {
+		time.Sleep(time.Duration(rc.slowProgressUs) * time.Microsecond) // whatever the sink still holds comes out within this
+	}
 	if !released {
 		close(release) // let deliberately blocked bodies finish
 	}
@@ -1195,10 +1223,35 @@ func buildCases(c *ctx) []rCase {
 		rs.cfg.SetupFail = true
 		rs.cfg.SetupMode = strings.TrimPrefix(rs.cfg.Name, "setup-fail-")
 		add(viaCLI(rs, "constant", "-r", "5/10ms", "--distribution", "none"))
+		rs2 := rs
+		rs2.cfg.Name = "setup-fail-with-tolerances"
+		add(viaCLI(rs2, "constant", "-r", "5/10ms", "--distribution", "none", "--max-failures", "5", "--max-failures-rate", "10"))
 		// Ctrl-C while a setup is running that then fails: still a failed run
 		rsi := constantCase("interrupt-during-failing-setup", "5/10ms", 10*ms, 2, 0, 2000*ms, "none")
 		rsi.cfg.SetupFail, rsi.cfg.SetupMode, rsi.cfg.SetupUs, rsi.cfg.CancelUs = true, []string{"fail", "failnow", "panic-error"}[c.rng.Intn(3)], 70*ms, 20*ms
 		add(viaCLI(rsi, "constant", "-r", "5/10ms", "--distribution", "none"))
+		// --concurrency left to its documented default (100) after an earlier run on the instance that set it: 100 it is -
+		// not more in flight, and all 100 usable
+		{
+			ud := usersCase("default-concurrency-users", 100, 0, 300*ms)
+			ud.bodyMaxUs = 20000
+			ud = viaCLI(ud, "users")
+			ud.cliOmitConc, ud.combined = true, false
+			ud.primer = append([]string{"run", "users", "scn", "-c", "130"}, tolerant...)
+			add(ud)
+			ur := usersCase("default-concurrency-rendezvous-users", 100, 0, 400*ms)
+			ur.cfg.Rendezvous = true
+			ur = viaCLI(ur, "users")
+			ur.cliOmitConc, ur.combined = true, false
+			ur.primer = append([]string{"run", "users", "scn", "-c", "3"}, tolerant...)
+			add(ur)
+		}
+		// a failing run with a profile requested: the profile is written, the run is still a failed run
+		{
+			rpf := constantCase("drops-profiled", "5/20ms", 20*ms, 1, 0, 300*ms, "none")
+			rpf.bodyMaxUs = 30000
+			add(viaCLI(rpf, "constant", "-r", "5/20ms", "--distribution", "none", "--memprofile", filepath.Join(c.out, "mem.prof")))
+		}
 		// the run ends while its periodic progress function is still writing to a slow sink (the 1 s tick, the run over
 		// at 1.03 s, the sink takes 90 ms): the run has stopped its progress runner - and so waited for it - before it
 		// goes on to the summary and returns
@@ -1207,16 +1260,26 @@ func buildCases(c *ctx) []rCase {
 			rp.slowProgressUs = 90 * ms
 			rp.bodyMaxUs = 1000
 			add(rp)
+			// ... and a sink that stalls for longer than any timeout on the way to it
+			rp2 := constantCase("stalled-progress-sink", "2/50ms", 50*ms, 2, 0, 1030*ms, "none")
+			rp2.slowProgressUs = 650 * ms
+			rp2.bodyMaxUs = 1000
+			add(rp2)
 		}
 		// every iteration passes, a cleanup registered by the setup fails: a failed run, and its summary says so
 		for k, api := range []bool{false, true} {
 			rt := constantCase("teardown-fails", "4/20ms", 20*ms, 3, 0, 200*ms, "none")
 			rt.teardownMode = []string{"fail", "panic-error", "failnow", "require", "panic-string"}[(k+int(c.seed))%5]
+			rt.cfg.TeardownFail = true
 			rt.bodyMaxUs = 2000
 			if api {
 				add(rt)
 			} else {
 				add(viaCLI(rt, "constant", "-r", "4/20ms", "--distribution", "none"))
+				// ... also when failure tolerances are configured: they are about iterations
+				rt2 := rt
+				rt2.cfg.Name = "teardown-fails-with-tolerances"
+				add(viaCLI(rt2, "constant", "-r", "4/20ms", "--distribution", "none", "--max-failures", "5", "--max-failures-rate", "10"))
 			}
 		}
 		// a rate per a FRACTIONAL number of units ticks at exactly that interval (2/2.9ms is not 2/2ms)
@@ -1430,7 +1493,11 @@ func buildCases(c *ctx) []rCase {
 				cliArgs = []string{"file", p}
 			}
 		}
-		add(rCase{cli: cliArgs, cfg: rCfg{Name: name, Mode: "file", Conc: conc, MaxDurUs: maxDurUs, FileStages: nstages, Light: strings.Contains(name, "stress"),
+		lim := int64(0)
+		if strings.Contains(name, "limit-flag") {
+			lim = 3
+		}
+		add(rCase{cli: cliArgs, cliLimit: lim, cfg: rCfg{Name: name, Mode: "file", Conc: conc, MaxDurUs: maxDurUs, FileStages: nstages, Light: strings.Contains(name, "stress"),
 			Args: strings.ReplaceAll(yy, "\n", "\\n")},
 			build: func(func(api.RateFunction) api.RateFunction) (*api.Trigger, error) {
 				p := filepath.Join(c.out, fmt.Sprintf("cfg-%d.yaml", time.Now().UnixNano()))
@@ -1503,6 +1570,68 @@ stages:
   rate: 2/20ms
 `, 3, []string{"VERIF_STAGE", "VERIF_A", "VERIF_DEF", "VERIF_FAST"},
 		[]string{"VERIF_STAGE=one;VERIF_A=a1", "VERIF_STAGE=two;VERIF_FAST=1", "VERIF_DEF=dflt"}, 5000*ms, 5, 60000)
+	// the limits section's max-duration is SHORTER than the stages: the run stops at it
+	fileCase("cli-file-short-max-duration", `scenario: scn
+limits:
+  max-duration: 300ms
+  concurrency: 3
+  max-iterations: 0
+  ignore-dropped: true
+default:
+  mode: constant
+  distribution: none
+  jitter: 0
+stages:
+- duration: 2s
+  rate: 3/20ms
+`, 1, nil, nil, 300*ms, 3, 1000)
+	// --max-iterations on the command line of a config-file run: refused (the file has its own limits section) - or else
+	// it is the limit
+	fileCase("cli-file-limit-flag", `scenario: scn
+limits:
+  max-duration: 400ms
+  concurrency: 3
+  max-iterations: 0
+  ignore-dropped: true
+default:
+  mode: constant
+  distribution: none
+  jitter: 0
+stages:
+- duration: 300ms
+  rate: 3/20ms
+`, 1, nil, nil, 400*ms, 3, 500)
+	// two users stages in a row, then a rate stage whose last iterations are still running when triggering stops
+	for _, pre := range []string{"", "cli-"} {
+		fileCase(pre+"file-users-users-constant", `scenario: scn
+limits:
+  max-duration: 5s
+  concurrency: 4
+  max-iterations: 0
+  ignore-dropped: true
+default:
+  mode: constant
+  distribution: none
+  jitter: 0
+stages:
+- duration: 200ms
+  mode: users
+  concurrency: 2
+  parameters:
+    VERIF_STAGE: one
+    VERIF_FAST: "1"
+- duration: 220ms
+  mode: users
+  concurrency: 3
+  parameters:
+    VERIF_STAGE: two
+    VERIF_FAST: "1"
+- duration: 160ms
+  rate: 3/20ms
+  parameters:
+    VERIF_STAGE: three
+`, 3, []string{"VERIF_STAGE", "VERIF_FAST"}, []string{"VERIF_STAGE=one;VERIF_FAST=1", "VERIF_STAGE=two;VERIF_FAST=1", "VERIF_STAGE=three"}, 5000*ms, 4, 70000)
+	}
 	fileCase("cli-file-limit", `scenario: scn
 limits:
   max-duration: 5s
@@ -1713,6 +1842,9 @@ func init() {
 					os.Unsetenv(k)
 				}
 				tr := runOne(c, rc, m)
+				if tr.skip {
+					continue
+				}
 				w.write(tr)
 				n++
 			}
